@@ -67,7 +67,7 @@ CHECKS = {
         technique=TECH + 'exhaustive small-scope model checking (MC_Tables, mode limit) with the real limit_df / limit_signal judged on every table x window, plus trace validation (Trace_Tables) of limit_df, limit_signal, split/drop_samples_df and flatten_dfs on analysis tables',
         text='LimitOK states bounds (everything entirely inside [start, stop] is returned, nothing entirely outside, order and feature fingerprints preserved, one common offset on reset) rather than one answer; TLC proves them for the model and evaluates them on the real outputs for all small tables x windows on the half-sample grid (either limit None) x reset x centring, and on recorded calls incl. 1-D / 2-D flatten lists.',
         design_ref='6/C18',
-        note='window limits are on the half-sample grid; at sampling rates that are not powers of two they are given half a sample off the grid or exactly ON sample times, and in the latter case windows with fs*(s/fs) != s carry their own class (one open known finding, F15b: limit_df compares samples with the product fs*limit); flatten_dfs results must not change through later calls on the same tables.'),
+        note='window limits are on the half-sample grid; at sampling rates that are not powers of two they are given half a sample off the grid or exactly ON sample times, and in the latter case windows with fs*(s/fs) != s carry their own class (the former finding F15b, repaired in ebc87d0, would show there); flatten_dfs results must not change through later calls on the same tables.'),
     'C14': dict(
         technique=TECH + 'model checking of the Session state machine (heap of aliased option dictionaries, objects, histories) incl. negative controls, TLC-generated behaviours replayed on real Bycycle objects, and TLC trace validation (Trace_Session) binding every recorded event to the Session action; group models via Trace_Pool; group histories by model checking GroupSession.tla, replay on a real BycycleGroup and trace validation (Trace_GroupSession)',
         text='Session.tla: HeapIsIntent, NoStale and OnlyEditsWrite hold for all histories to the depth bound and the pinned tree\'s write-back deviation violates them. Behaviours simulated by TLC from the same specification are replayed on real objects sharing real dictionaries; TLC compares after every action the recorded dictionary contents with the specified heap, the fitted table with the functional analysis for the settings as the user wrote them, recompute_edges(r) with the functional recomputation, attribute access and load; BycycleGroup.models are checked position by position for 2-D / 3-D arrays and every axis mode. GroupSession.tla models one BycycleGroup with re-bound / edited threshold dictionaries, fits of three stacks in every axis mode and edge recomputations (invariants Mirror, UsesCurrentSettings, HeapIsIntent; the former behaviours D22 / D17 as negative controls); TLC-simulated group sessions are replayed on a real BycycleGroup and judged by Trace_GroupSession (the reference settings must be those of the specification).',
@@ -87,7 +87,7 @@ CHECKS = {
         technique=TECH + 'exhaustive small-scope enumeration by TLC (MC_Plots: every small table x window x plot mode, the drawing of the real function looked up per point) and TLC trace validation (Trace_Plots) of recorded plotting calls under the Agg backend, both against the bounds of Plots.tla',
         text='Plots.tla states bounds in sample units (drawn markers are genuine cyclepoints of their kind at the plotted signal\'s value and every required cyclepoint strictly inside the view is drawn by the cyclepoint plots; highlighted samples lie in burst cycles and cover every completely displayed burst cycle; panel vertices are genuine (centre | side, value) pairs, every cycle completely in view is shown, threshold line at the threshold). The harness maps artist data of plot_cyclepoints_df/_array, plot_burst_detect_param, plot_burst_detect_summary and Bycycle.plot back to samples; TLC enumerates every side-extremum set x centring x window x plot mode on 7 (thorough 9) samples and judges the recorded drawing of each point, and judges every recorded call on analysis tables of generated signals over windows on the sample grid, flags and both centrings; markers and the highlighted trace must lie on the signal line as actually drawn.',
         design_ref='6/C20',
-        note='artist data, not pixels; one open known finding (F15: x-limits whose product with fs is inexact, fs not a power of two); small scope: tables to 7 (9) samples with synthetic parameter columns.'),
+        note='artist data, not pixels; x-limits whose product with fs is inexact (fs not a power of two) carry their own class (the former finding F15, repaired in ebc87d0); small scope: tables to 7 (9) samples with synthetic parameter columns.'),
     'C19': dict(
         technique=TECH + 'exhaustive enumeration by TLC (MC_Kwargs) of the documented decision tables (array shape x axis x option-list shape; every parameter at / inside / outside its range at every entry point) with the outcome of the real entry point looked up for every point',
         text='KwargsShape.tla is the documented accept/reject table; TLC enumerates the complete grid (extents 1..3, 7 axis values, None/dict/1-D/2-D/3-D lists; ~250 parameter points over 25 entry points, ASSUMEs force the harness to probe every position of every parameter) and requires "returns" where the table accepts and exactly ValueError where it rejects, for check_kwargs_shape, compute_features_2d/3d, BycycleGroup.fit and the single-signal entry points.',
